@@ -6,6 +6,7 @@ import (
 	"crypto/ed25519"
 	"crypto/x509"
 	"fmt"
+	"strings"
 	"testing"
 	"time"
 
@@ -271,7 +272,7 @@ func TestProp_Window(t *testing.T) {
 			}
 		}
 		c.NBSkew, c.NASkew, c.NBEdge, c.NAEdge = nbSkew.String(), naSkew.String(), a.String(), b.String()
-		c.Field = rapid.SampledFrom([]string{"ok", "ok", "ok", "ok", "no-cert-key", "bad-cert-type", "no-nonce", "no-enc-key", "bad-enc-type"}).Draw(t, "field")
+		c.Field = rapid.SampledFrom([]string{"ok", "ok", "ok", "ok", "no-cert-key", "bad-cert-type", "no-nonce", "no-enc-key", "bad-enc-type", "not-after-missing", "not-after-bad-nanos", "not-before-bad-nanos"}).Draw(t, "field")
 		actor := vkit.NewActor("n")
 		if c.Entry == "fetch-authorized" {
 			if _, err := w.Authorize(actor); err != nil {
@@ -294,8 +295,21 @@ func TestProp_Window(t *testing.T) {
 		case "bad-enc-type":
 			info.EncryptionPublicKeyType = rapid.SampledFrom([]types.KEYTYPE{types.KEYTYPE_UNSPECIFIED, types.KEYTYPE_ED25519, 9}).Draw(t, "et")
 		}
+		// Malformed or missing window timestamps: the window is whatever AsTime()
+		// makes of them (a missing timestamp is the Unix epoch, out-of-range nanos
+		// are normalised); presenting the bundle outside THAT window must be refused.
+		windowOK := a <= 0 && b >= 0
+		switch c.Field {
+		case "not-after-missing":
+			info.NotAfter = nil
+			windowOK = false // the epoch is long past (skews are at most days)
+		case "not-after-bad-nanos":
+			info.NotAfter.Nanos = rapid.SampledFrom([]int32{-1, 1_000_000_000, -2_000_000_000}).Draw(t, "nanos")
+		case "not-before-bad-nanos":
+			info.NotBefore.Nanos = rapid.SampledFrom([]int32{-1, 1_000_000_000, 2_000_000_000}).Draw(t, "nanos")
+		}
 		req := vkit.Sign(info, actor.CertPriv)
-		c.Expected = a <= 0 && b >= 0 && c.Field == "ok"
+		c.Expected = windowOK && (c.Field == "ok" || strings.HasPrefix(c.Field, "not-"))
 		opts := w.O(nodeenrollment.WithNotBeforeClockSkew(nbSkew), nodeenrollment.WithNotAfterClockSkew(naSkew))
 		w.Rec.Reset()
 		var err error
